@@ -406,7 +406,9 @@ def unused_file(rng, idx):
     if kind == "class" and rng.random() < 0.5:
         methods.append("    void run() { }")
     lines += class_annos
-    lines.append("public %s %s%s {" % (kind, name, ext if kind == "class" else ""))
+    # (the type is public, package-private, final or abstract: its file is cleaned all the same)
+    vis = rng.choice(["public ", "public ", "public ", "", "final " if kind == "class" else "", "abstract "])
+    lines.append("%s%s %s%s {" % (vis, kind, name, ext if kind == "class" else ""))
     lines += fields + methods
     lines.append("}")
     text = "\n".join(lines) + ("\n" if rng.random() < 0.8 else "")
